@@ -329,10 +329,10 @@ def run(repo: Repo) -> Result:
         site = next((q for imp in (True, False) for q in run_scenario(repo, Scenario(verb, exc, imp)).queries if q.name == EXPLICIT_QUERY), None)
         prefix = f"{site.fi.relpath}::{site.fi.qualname}" if site is not None else f"{grv.relpath}::{grv.qualname}"
         ok = ("explicit" in a[True]) == ("explicit" in a[False])
-        res.add(
-            "C12.DUAL", f"{prefix}::explicit question independent of direction @ {point_name(verb, exc)}", ok,
+        c01._add(
+            res, "C12.DUAL", f"{prefix}::explicit question independent of direction @ {point_name(verb, exc)}", ok,
             "the explicit question is asked for a rule iff it is asked for its dual" if ok else f"'{point_name(verb, exc)}': import rules ask {sorted(a[True])}, be-imported-by rules ask {sorted(a[False])}: a rule and its dual no longer ask the same question",
-            where(site.fi, site.node) if site is not None else "", kind="decision-table",
+            where(site.fi, site.node) if site is not None else "", "decision-table", c01._asked_taint(*[run_scenario(repo, Scenario(verb, exc, imp)) for imp in (True, False)]),
         )
     for f in viol.ann_attrs:
         diff = []
@@ -374,6 +374,8 @@ def run(repo: Repo) -> Result:
         prefix = f"{h.relpath}::{h.qualname}" if h is not None else f"{grv.relpath}::{grv.qualname}"
         ok = (mode, gran) in (("absent", "per-key"), ("present", "per-pair"))
         if mode is None:
+            if und:
+                res.undecide("C12.NEG", f"{prefix}::{f} predicate", und, where(h, h.node) if h is not None else where(grv, grv.node))
             continue  # never active: reported by the bucket-set comparisons (and by C01.T2)
         c01._add(
             res, "C12.NEG", f"{prefix}::{f} predicate", ok,
@@ -414,7 +416,10 @@ def run(repo: Repo) -> Result:
             parts = c01._asked(run_scenario(repo, Scenario("should", exc, imp))) | c01._asked(run_scenario(repo, Scenario("should_not", not exc, imp)))
             if whole != parts:
                 break
-        res.add("C12.DECOMP", f"{grv.relpath}::RuleMatcher::questions of should_only{' except' if exc else ''}", whole == parts, f"questions asked: whole {sorted(whole)}, parts {sorted(parts)}", kind="decision-table")
+        c01._add(
+            res, "C12.DECOMP", f"{grv.relpath}::RuleMatcher::questions of should_only{' except' if exc else ''}", whole == parts, f"questions asked: whole {sorted(whole)}, parts {sorted(parts)}", "", "decision-table",
+            c01._asked_taint(*[run_scenario(repo, Scenario(v, e, i)) for v, e in (("should_only", exc), ("should", exc), ("should_not", not exc)) for i in (True, False)]),
+        )
     # ---- alias
     tmp5 = Result("C01")
     c01.run_t5(repo, tmp5)
